@@ -15,6 +15,7 @@ package c19
 
 import (
 	"context"
+	"errors"
 	"fmt"
 	"math/rand"
 	"sort"
@@ -25,12 +26,14 @@ import (
 	commonmodels "github.com/lindb/common/models"
 	"github.com/lindb/common/pkg/encoding"
 
+	"github.com/lindb/lindb/constants"
 	"github.com/lindb/lindb/internal/concurrent"
 	"github.com/lindb/lindb/internal/linmetric"
 	"github.com/lindb/lindb/metrics"
 	"github.com/lindb/lindb/models"
 	protoCommonV1 "github.com/lindb/lindb/proto/gen/v1/common"
 	"github.com/lindb/lindb/query"
+	querycontext "github.com/lindb/lindb/query/context"
 	"github.com/lindb/lindb/sql/stmt"
 
 	"github.com/lindb/lindb/zzverif/internal/core"
@@ -156,6 +159,261 @@ func bmFixed() (cases [][]*bmNode, orders [][]int) {
 	return
 }
 
+// ---------------------------------------------------------------- the request deadline (round 9)
+
+// bmCapMgr is the real TaskManager; it only remembers the task context exec registers.
+type bmCapMgr struct {
+	query.TaskManager
+	ch chan querycontext.TaskContext
+}
+
+func (m *bmCapMgr) AddTask(id string, tc querycontext.TaskContext) {
+	m.TaskManager.AddTask(id, tc)
+	select {
+	case m.ch <- tc:
+	default:
+	}
+}
+
+func (n *bmNode) word() string {
+	if n.kind == "ok" {
+		return "ok:" + strings.Join(n.values, ",")
+	}
+	return n.kind
+}
+
+// bmDeadlineFixed: the deadline passes after k of the answers (arrival order = node order).
+var bmDeadlineFixed = []struct {
+	kinds []string
+	k     int
+}{
+	{[]string{"ok", "ok"}, 1},        // one of two answered: timeout, the late answer is dropped
+	{[]string{"ok", "ok"}, 0},        // nobody answered
+	{[]string{"ok", "ok"}, 2},        // everybody answered before the deadline: the complete result
+	{[]string{"ok", "err"}, 1},       // the healthy node answered, the failing one is late: timeout, never [a]
+	{[]string{"err", "ok"}, 1},       // the error arrived before the deadline: the error
+	{[]string{"nf", "ok", "ok"}, 2},  // not-found + one value set, one missing
+	{[]string{"ok", "sf"}, 0},        // a request could not be sent: the pipeline's error, before any deadline
+	{[]string{"ok"}, 0},
+}
+
+// runDeadline: one metadata query whose context is cancelled after the first k answers (in arrival
+// order) have been handled. The op line is the event script in the order things happened on the
+// implementation; the model says which scripts are possible and what they return.
+func bmRunDeadline(c *core.Ctx, pool concurrent.Pool, taskMgr query.TaskManager, nodes []*bmNode, order []int, k int) (silent bool) {
+	c.Branch("deadline-case")
+	tr := &bmTransport{fail: map[string]bool{}, sent: make(chan string, 16)}
+	sf := false
+	var arriving []*bmNode
+	for _, n := range nodes {
+		if n.kind == "sf" {
+			tr.fail[n.name] = true
+			sf = true
+		}
+	}
+	for _, j := range order {
+		if nodes[j].kind != "sf" {
+			arriving = append(arriving, nodes[j])
+		}
+	}
+	if k > len(arriving) {
+		k = len(arriving)
+	}
+	capMgr := &bmCapMgr{TaskManager: taskMgr, ch: make(chan querycontext.TaskContext, 1)}
+	mgr := &query.SearchMgr{
+		Timeout:      20 * time.Second,
+		CurNode:      models.StatelessNode{HostIP: "10.0.0.100", GRPCPort: 9001},
+		Choose:       &bmChoose{nodes: nodes},
+		TaskMgr:      capMgr,
+		TransportMgr: tr,
+	}
+	type result struct {
+		md  *commonmodels.Metadata
+		err error
+		pan interface{}
+	}
+	ctx, cancel := context.WithCancel(context.Background())
+	defer cancel()
+	done := make(chan result, 2)
+	go func() {
+		defer func() {
+			if r := recover(); r != nil {
+				done <- result{pan: r}
+			}
+		}()
+		rs, err := query.MetricMetadataSearchWithResult(ctx,
+			&models.ExecuteParam{Database: "db", SQL: "show metrics"},
+			&stmt.MetricMetadata{Namespace: "default-ns", Type: stmt.Metric}, mgr)
+		md, _ := rs.(*commonmodels.Metadata)
+		done <- result{md: md, err: err}
+	}()
+	for range nodes {
+		select {
+		case <-tr.sent:
+		case <-time.After(3 * time.Second):
+		}
+	}
+	tr.mu.Lock()
+	reqID := tr.reqID
+	tr.mu.Unlock()
+	script := []string{}
+	// the receive pool has one worker: a sentinel queued behind the responses says they were handled
+	handledAll := func() {
+		ch := make(chan struct{})
+		pool.Submit(context.Background(), concurrent.NewTask(func() { close(ch) }, nil))
+		select {
+		case <-ch:
+		case <-time.After(3 * time.Second):
+		}
+	}
+	completesEarly := sf || len(arriving) == 0
+	if completesEarly {
+		k = 0 // the pipeline's own error has completed the request: exec returns before any answer
+	}
+	dropped := 0
+	for j := 0; j < k; j++ {
+		n := arriving[j]
+		if err := taskMgr.Receive(n.response(reqID), n.name); err != nil {
+			// the query is over already (an earlier answer failed it and exec has returned)
+			dropped++
+		}
+		script = append(script, "r:"+n.word())
+		if n.kind == "err" || n.kind == "bad" {
+			completesEarly = true
+		}
+		handledAll()
+		if completesEarly {
+			// exec returns as soon as doneCh is closed; later answers find no task — wait for the return so
+			// that the order of events is the script's
+			break
+		}
+	}
+	nDelivered := len(script)
+	if nDelivered == len(arriving) {
+		completesEarly = true
+	}
+	var res result
+	got := false
+	wait := func() {
+		select {
+		case res = <-done:
+			got = true
+		case <-time.After(3 * time.Second):
+		}
+	}
+	if completesEarly {
+		wait()
+		script = append(script, "wd", "un", "dl")
+		cancel()
+	} else {
+		cancel()
+		wait()
+		script = append(script, "dl", "wt", "un")
+	}
+	// late answers: exec has removed its task, Receive must refuse them
+	lateAccepted := ""
+	for j := nDelivered; j < len(arriving); j++ {
+		n := arriving[j]
+		if !got {
+			break
+		}
+		if err := taskMgr.Receive(n.response(reqID), n.name); err != nil {
+			dropped++
+		} else {
+			lateAccepted = n.name
+		}
+		script = append(script, "r:"+n.word())
+	}
+	handledAll()
+	// … and one that was already in flight: HandleResponse on the context nobody waits for any more
+	var latePanic interface{}
+	if got && len(arriving) > 0 {
+		n := arriving[len(arriving)-1]
+		select {
+		case tc := <-capMgr.ch:
+			func() {
+				defer func() { latePanic = recover() }()
+				tc.HandleResponse(n.response(reqID), n.name)
+			}()
+			script = append(script, "f:"+n.word())
+		default:
+		}
+	}
+	ret := "-"
+	var vals []string
+	switch {
+	case !got:
+	case res.pan != nil:
+		ret = "panic"
+	case res.err != nil && errors.Is(res.err, constants.ErrTimeout):
+		ret = "timeout"
+	case res.err != nil:
+		ret = "err"
+	default:
+		if res.md != nil {
+			if vs, isS := res.md.Values.([]string); isS {
+				vals = append(vals, vs...)
+			}
+		}
+		sort.Strings(vals)
+		ret = "ok " + strings.Join(vals, ",")
+	}
+	sfw := "0"
+	if sf {
+		sfw = "1"
+	}
+	c.Op(fmt.Sprintf("bdl %d %s %s", len(nodes), sfw, strings.Join(script, " ")), fmt.Sprintf("ret=%s dropped=%d", ret, dropped))
+	what := fmt.Sprintf("metadata query over %d nodes with a deadline, events [%s]", len(nodes), strings.Join(script, " "))
+	select {
+	case r2 := <-done:
+		c.Fail("brokermeta-deadline-second-result", fmt.Sprintf("%s: a second result %v", what, r2))
+	default:
+	}
+	// the property, from what the harness did: a success needs every node's answer, none of them a failure
+	allAnswered, anyErr := nDelivered == len(arriving) && !sf, sf
+	for j := 0; j < nDelivered; j++ {
+		if arriving[j].kind == "err" || arriving[j].kind == "bad" {
+			anyErr = true
+		}
+	}
+	switch {
+	case !got:
+		c.Fail("brokermeta-deadline-no-response", what+": the request's context was cancelled, exec did not return within 3s")
+		return true
+	case res.pan != nil:
+		c.Fail("brokermeta-deadline-panic", fmt.Sprintf("%s: %v", what, res.pan))
+	case res.err == nil && (!allAnswered || anyErr):
+		c.Fail("brokermeta-deadline-partial-success", fmt.Sprintf("%s: %d of %d nodes had answered (a failure among them: %v) when the request returned %v WITHOUT error",
+			what, nDelivered, len(arriving), anyErr, vals))
+	case res.err == nil:
+		want := map[string]bool{}
+		for _, n := range arriving {
+			for _, v := range n.values {
+				want[v] = true
+			}
+		}
+		var ws []string
+		for v := range want {
+			ws = append(ws, v)
+		}
+		sort.Strings(ws)
+		if strings.Join(ws, ",") != strings.Join(vals, ",") {
+			c.Fail("brokermeta-deadline-values-not-the-union", fmt.Sprintf("%s: returned %v, the union of the nodes' values is %v", what, vals, ws))
+		}
+	}
+	if lateAccepted != "" {
+		c.Fail("brokermeta-late-response-accepted", fmt.Sprintf("%s: the answer of %s arrived after exec had returned and TaskManager.Receive still accepted it", what, lateAccepted))
+	}
+	if latePanic != nil {
+		c.Fail("brokermeta-late-response-panic", fmt.Sprintf("%s: HandleResponse of an in-flight answer after the return panicked: %v", what, latePanic))
+	}
+	c.Branch("deadline-ret-" + strings.SplitN(ret, " ", 2)[0])
+	if len(nodes) >= 2 {
+		c.NonTrivial()
+	}
+	return false
+}
+
 func (bmArea) Run(c *core.Ctx) error {
 	pool := concurrent.NewPool("verif-c19-bm", 1, time.Minute,
 		metrics.NewConcurrentStatistics("verif-c19-bm", linmetric.BrokerRegistry))
@@ -175,10 +433,31 @@ func (bmArea) Run(c *core.Ctx) error {
 		c.Begin(i)
 		var nodes []*bmNode
 		var order []int
+		if j := i - len(fixedNodes); j >= 0 && j < len(bmDeadlineFixed) {
+			f := bmDeadlineFixed[j]
+			for x, kd := range f.kinds {
+				n := &bmNode{name: fmt.Sprintf("10.0.0.%d:2891", x+1), kind: kd}
+				if kd == "ok" {
+					n.values = []string{string(rune('a' + x)), "z"}
+				}
+				nodes = append(nodes, n)
+				order = append(order, x)
+			}
+			if bmRunDeadline(c, pool, taskMgr, nodes, order, f.k) {
+				silent++
+			}
+			continue
+		}
 		if i < len(fixedNodes) {
 			nodes, order = fixedNodes[i], fixedOrders[i]
 		} else {
 			nodes, order = bmGen(rng)
+			if i%3 == 2 {
+				if bmRunDeadline(c, pool, taskMgr, nodes, order, rng.Intn(len(nodes)+1)) {
+					silent++
+				}
+				continue
+			}
 		}
 		tr := &bmTransport{fail: map[string]bool{}, sent: make(chan string, 16)}
 		byName := map[string]*bmNode{}
